@@ -150,18 +150,38 @@ def check_rule(run, ctx):
     c = H.canon(fn["body"])
     ps = [p.get("name") for p in fn["params"]]
     T, R = ps[1], ps[2]
-    want_num = ("let {ogn} = |{num}| if (0 == {num}) {Ok(())} else {if !%s.named_groups.is_empty() {Err(Error::CompileError(CompileError::NamedBackrefOnly))} "
-                "else {if ({num} < %s.captures_len()) {Ok(())} else {Err(Error::CompileError(CompileError::InvalidBackref))}}}" % (R, R))
     n = 0
-    n += 1
-    mnum = H.find_pat(c, want_num)
-    OGN = mnum.group("ogn") if mnum else "on_group_num"
-    if not mnum:
-        run.violation(fam, label, "group-num", H.where(fn), "Expander::check: a numeric reference is acceptable only if it is 0, or the regex has no named groups and the number is below captures_len(); shape not found in %s" % c[:260])
-    # every step kind judged, arm by arm, path by path
+    # every step kind judged, arm by arm, path by path; the numeric judgement (shared closure, helper or written
+    # out) is decided under sample valuations of (number, named groups present, number of groups)
     arms = _step_arms(fn)
-    n += 1
+    n += 2
     bad = None
+    EMPTY = "%s.named_groups.is_empty()" % R
+    LEN = "%s.captures_len()" % R
+
+    def judge_number(paths, NUM, what, extra=None):
+        for num_ in (0, 1, 2, 3, 7):
+            for empty_ in (True, False):
+                for len_ in (1, 2, 3, 8):
+                    vals = {NUM: num_, EMPTY: empty_, LEN: len_}
+                    vals.update(extra or {})
+                    feas = [p for p in paths if S.consistent(p, vals) is not False]
+                    sure = [p for p in feas if S.consistent(p, vals) is True]
+                    if len(feas) != 1 or len(sure) != 1:
+                        return "%s: the judgement of number %d (named groups %s, %d groups) is not decided by one path (%d candidates)" % (what, num_, "absent" if empty_ else "present", len_, len(feas))
+                    got = S.Summary(feas[0]).val or feas[0].val or ""
+                    if num_ == 0 or (empty_ and num_ < len_):
+                        ok_ = got == "Ok(())"
+                        want_ = "Ok(())"
+                    elif not empty_:
+                        ok_ = got.startswith("Err(") and "Error::CompileError(" in got and "NamedBackrefOnly" in got
+                        want_ = "Err(CompileError(NamedBackrefOnly))"
+                    else:
+                        ok_ = got.startswith("Err(") and "Error::CompileError(" in got and "InvalidBackref" in got
+                        want_ = "Err(CompileError(InvalidBackref))"
+                    if not ok_:
+                        return "%s: number %d with named groups %s and %d groups must be judged %s, found %s" % (what, num_, "absent" if empty_ else "present", len_, want_, got)
+        return None
     for v in ("Char", "GroupName", "GroupNum", "Error"):
         if v not in arms:
             bad = "no arm for Step::%s" % v
@@ -169,16 +189,19 @@ def check_rule(run, ctx):
         pat, arm = arms[v]
         pm = re.match(r"^Step::\w+\((\w+)\)$", pat)
         ARG = pm.group(1) if pm else None
-        for p in S.paths_of(arm["body"]):
-            if p.exit == "try-err":
-                continue
+        paths = [p for p in S.paths_of(arm["body"], combinators=True, scope=fn["body"]) if p.exit != "try-err"]
+        if v == "GroupNum":
+            bad = judge_number(paths, ARG, "Step::GroupNum")
+            if bad:
+                break
+            continue
+        numeric = {}
+        for p in paths:
             val = p.val or ""
             if v == "Char":
                 ok = val == "Ok(())"
             elif v == "Error":
                 ok = val.startswith("Err(")
-            elif v == "GroupNum":
-                ok = val == "%s(%s)" % (OGN, ARG)
             else:
                 known = [ev.b for ev in p.events if ev.kind == "cond" and ev.a == "%s.named_groups.contains_key(%s)" % (R, ARG)]
                 num = S.opt_outcomes(p, "%s.parse()" % ARG)
@@ -186,7 +209,8 @@ def check_rule(run, ctx):
                     ok = val == "Ok(())"
                 elif known and num and num[-1][1] == "some":
                     k_ = re.sub(r"^\w+\((\w+)\)$", r"\1", num[-1][2] or "")
-                    ok = val == "%s(%s)" % (OGN, k_)
+                    numeric.setdefault(k_, []).append(p)
+                    ok = True
                 elif known and num and num[-1][1] == "none":
                     ok = val.startswith("Err(") and "InvalidBackref" in val
                 else:
@@ -194,10 +218,16 @@ def check_rule(run, ctx):
             if not ok:
                 bad = "Step::%s: %s" % (v, p.show()[:200])
                 break
+        if not bad and v == "GroupName":
+            if len(numeric) != 1:
+                bad = "Step::GroupName: a name that is not a group name must be judged as a number when it parses as one (found %s)" % sorted(numeric)
+            else:
+                k_, ps_ = list(numeric.items())[0]
+                bad = judge_number(ps_, k_, "Step::GroupName spelled as a number", {"%s.named_groups.contains_key(%s)" % (R, ARG): False})
         if bad:
             break
     if bad:
-        run.violation(fam, label, "steps", H.where(fn), "Expander::check: every step kind must be judged (named reference must exist or be a valid number; malformed reference is an error); %s" % bad)
+        run.violation(fam, label, "steps", H.where(fn), "Expander::check: every step kind must be judged (a numeric reference is acceptable only if it is 0, or the regex has no named groups and the number is below captures_len(); a named reference must exist or be a valid number; a malformed reference is an error); %s" % bad)
     run.ok(fam, label, H.where(fn), n, "numeric reference: 0 | (no named groups & < captures_len); named reference must exist; malformed => Err")
 
 
